@@ -33,6 +33,14 @@ CLAIMED = {
             "Seeded exploration over policies, request lists (duplicates, clusters, empty, on-grid ties), t_max, units and "
             "engines; the engine is stepped one iteration at a time and observed after every call; records, shapes, order and "
             "unit scaling of the fetched trajectory are compared with the model's prediction.", "5 (C09)"),
+    "C10": ("Simulations terminate, and the engine lifecycle is crash-free and isolated",
+            "seeded random lifecycle histories with injected lifecycle faults (finalize at any point and repeatedly, abandon, "
+            "re-set-up, calls after completion, degenerate slices, overlapping engine objects) checked op by op against a "
+            "reference lifecycle state machine; bounded-step liveness via the loop-budget hook",
+            "Seeded exploration of lifecycle histories over 1-3 engine objects and up to 6 set-ups; every script also runs "
+            "alone in a fresh process lifetime, which gives the iterations to completion and the bytes a clean-slate set-up "
+            "must reproduce. Crash / hang / timeout classification per op. Overlap histories are reported as known finding KF-1.",
+            "5 (C10)"),
 }
 
 NA = {
